@@ -6,7 +6,9 @@ Gallina parser; interception of requests vs the Gallina detector; bounds() rows 
 Direct oracle: byte-identical responses with and without the middleware for function-free requests (valid and malformed);
 mean() against exact rational means, shapes, dims and maps; bounds() against a reference filter (numpy and lazy sequences);
 proxy results against raw requests."""
+import os
 import random
+import shutil
 from fractions import Fraction
 
 from common import Report, clist, coq_eval_mismatches, proof_phase, use_repo
@@ -304,6 +306,36 @@ def main():
             except Exception as e:  # noqa
                 direct.append({"law": "mean(grid, axis) on a valid axis is answered", "request": call, "error": repr(e)[:300]})
 
+        # ---- (2b) mean on a variable served from a file (the NetCDF handler hands out lazy variables)
+        if i % 8 == 0:
+            try:
+                import netCDF4
+                import tempfile
+                from pydap.handlers.netcdf import NetCDFHandler
+                tdir = tempfile.mkdtemp(prefix="verif_c19_")
+                try:
+                    ncp = os.path.join(tdir, "m.nc")
+                    shp = tuple(rng.randint(1, 4) for _ in range(rng.randint(1, 3)))
+                    arr_nc = (np.arange(int(np.prod(shp))) * 1.25 - 3).reshape(shp)
+                    with netCDF4.Dataset(ncp, "w") as ncd:
+                        for k_, n_ in enumerate(shp):
+                            ncd.createDimension("d%d" % k_, n_)
+                        vv = ncd.createVariable("v", "f8", tuple("d%d" % k_ for k_ in range(len(shp))))
+                        vv[...] = arr_nc
+                    ncapp = ServerSideFunctions(NetCDFHandler(ncp))
+                    for axis in range(len(shp)):
+                        stats["mean_calls"] += 1
+                        r.count(("mean-netcdf", i, axis, shp))
+                        res = open_dods_url("http://localhost:8001/m.dods?mean(v,%d)" % axis, application=ncapp)
+                        got = np.asarray(res["v"].data[:]) if res["v"].shape else np.asarray(res["v"].data)
+                        if not close(got, exact_mean(arr_nc, axis)):
+                            direct.append({"law": "mean(v, axis) returns the arithmetic mean of the source array along that axis",
+                                           "request": "mean(v,%d) on a NetCDF file" % axis, "shape": shp, "got": np.asarray(got).tolist()})
+                finally:
+                    shutil.rmtree(tdir, ignore_errors=True)
+            except Exception as e:  # noqa
+                direct.append({"law": "mean(v, axis) on a valid axis is answered", "request": "mean on a variable served from a NetCDF file",
+                               "error": repr(e)[:300]})
         # ---- (3) bounds: closed intervals incl. min = max, selection position with different projections
         colnames = [c for c, _ in cols]
         # every column that carries an axis attribute (in either letter case) is bounded by that axis' interval
